@@ -5,7 +5,8 @@
    History/C14History.v, where the old witnesses are kept as history.  `hash` is universally
    quantified (DefaultHasher); where injectivity matters it is an explicit premise. *)
 Require Import Base Suggestion Ignore ListLemmas IgnoreProofs IgnoreJson IgnoreWitness Tables_lintcontext IgnoreShape
-  C14EditProofs C14JsonExact C14Hash.
+  C14EditProofs C14JsonExact C14Hash C14Flat.
+Require Import Tables_spanexprs C14RuleSpans.
 From Coq Require Import String.
 From Coq Require Import Permutation.
 
@@ -371,6 +372,113 @@ Check C14_collision_hides :
   forall ls ls', remove_ignored context hash s1 ls d2 = Ok ls' -> ~ In l2 ls'.
 Print Assumptions C14_collision_hides.
 
+(* ---------- phase 4: the open finding F13d, exactly ----------
+   Two lints get the same context although the property tells them apart (different tokens before / under / after the
+   flagged text) IF AND ONLY IF they have the same report and the same flat list before ++ flagged ++ after, cut
+   differently between the three windows (split_of = number of tokens before, number of flagged tokens) *)
+Theorem C14_flat_collision_iff :
+  forall l d c w l' d' c' w',
+  context l d = Ok c -> context l' d' = Ok c' -> nb_parts l d = Ok w -> nb_parts l' d' = Ok w' ->
+  (c = c' /\ w <> w') <-> (same_report l l' /\ flat_of w = flat_of w' /\ split_of w <> split_of w').
+Proof. exact flat_collision_iff. Qed.
+Check C14_flat_collision_iff :
+  forall l d c w l' d' c' w',
+  context l d = Ok c -> context l' d' = Ok c' -> nb_parts l d = Ok w -> nb_parts l' d' = Ok w' ->
+  (c = c' /\ w <> w') <-> (same_report l l' /\ flat_of w = flat_of w' /\ split_of w <> split_of w').
+Print Assumptions C14_flat_collision_iff.
+
+(* and that is exactly the class of "only that lint" failures between two lints when the hash does not collide on their
+   two contexts: after ignoring l alone, a lint l' that is NOT the same lint (other report, or other tokens before / under /
+   after) is hidden  <=>  same report, same flat list, different split.  The known-finding classifier of the harness
+   (same context in the model, same flat list, different split) is this right-hand side. *)
+Theorem C14_flat_failure_iff :
+  forall (hash : ctx -> N) l d c w l' d' c' w' s1,
+  context l d = Ok c -> context l' d' = Ok c' -> nb_parts l d = Ok w -> nb_parts l' d' = Ok w' ->
+  hash_injective_on hash [c'; c] ->
+  ignore_lint context hash [] l d = Ok s1 ->
+  (is_ignored context hash s1 l' d' = Ok true /\ (~ same_report l l' \/ w <> w'))
+  <-> (same_report l l' /\ flat_of w = flat_of w' /\ split_of w <> split_of w').
+Proof. exact flat_failure_iff. Qed.
+Check C14_flat_failure_iff :
+  forall (hash : ctx -> N) l d c w l' d' c' w' s1,
+  context l d = Ok c -> context l' d' = Ok c' -> nb_parts l d = Ok w -> nb_parts l' d' = Ok w' ->
+  hash_injective_on hash [c'; c] ->
+  ignore_lint context hash [] l d = Ok s1 ->
+  (is_ignored context hash s1 l' d' = Ok true /\ (~ same_report l l' \/ w <> w'))
+  <-> (same_report l l' /\ flat_of w = flat_of w' /\ split_of w <> split_of w').
+Print Assumptions C14_flat_failure_iff.
+
+(* ---------- phase 4: lints that flag whole tokens (what real rules report) ----------
+   `aligned d l pre mid post`: the tokens of d are pre ++ mid ++ post, they tile the text, and mid (not empty) covers exactly
+   the flagged span.  The three windows in closed form: flagged = mid; before = the last token of pre, and the one in front
+   of it exactly when that last token is one character long; after likewise from the front of post. *)
+Theorem C14_aligned_windows :
+  forall d l pre mid post,
+  aligned d l pre mid post ->
+  before_shape pre (wtoks (dtoks d) (before_window (il_span l))) /\
+  wtoks (dtoks d) (il_span l) = mid /\
+  after_shape post (wtoks (dtoks d) (after_window (il_span l))).
+Proof. exact aligned_windows. Qed.
+Check C14_aligned_windows :
+  forall d l pre mid post,
+  aligned d l pre mid post ->
+  before_shape pre (wtoks (dtoks d) (before_window (il_span l))) /\
+  wtoks (dtoks d) (il_span l) = mid /\
+  after_shape post (wtoks (dtoks d) (after_window (il_span l))).
+Print Assumptions C14_aligned_windows.
+
+(* hence F13d between two token-aligned lints (of one tiled document or of two) needs a lint at the very start / end of its
+   text, or a ONE-CHARACTER token directly in front of / behind one of the flagged spans.  Both escapes are real:
+   C14Flat.aligned_collision_edge_example (no one-character token anywhere), aligned_collision_one_char_example. *)
+Theorem C14_aligned_collision_needs :
+  forall d1 l1 pre1 mid1 post1 w1 d2 l2 pre2 mid2 post2 w2,
+  aligned d1 l1 pre1 mid1 post1 -> aligned d2 l2 pre2 mid2 post2 ->
+  nb_parts l1 d1 = Ok w1 -> nb_parts l2 d2 = Ok w2 ->
+  flat_of w1 = flat_of w2 -> w1 <> w2 ->
+  at_edge pre1 post1 \/ at_edge pre2 post2 \/ one_char_border pre1 post1 \/ one_char_border pre2 post2.
+Proof. exact aligned_collision_needs. Qed.
+Check C14_aligned_collision_needs :
+  forall d1 l1 pre1 mid1 post1 w1 d2 l2 pre2 mid2 post2 w2,
+  aligned d1 l1 pre1 mid1 post1 -> aligned d2 l2 pre2 mid2 post2 ->
+  nb_parts l1 d1 = Ok w1 -> nb_parts l2 d2 = Ok w2 ->
+  flat_of w1 = flat_of w2 -> w1 <> w2 ->
+  at_edge pre1 post1 \/ at_edge pre2 post2 \/ one_char_border pre1 post1 \/ one_char_border pre2 post2.
+Print Assumptions C14_aligned_collision_needs.
+
+(* the same as an IFF on the documents' own token vectors: before_count pre = 0 at the start of the text, 2 when the token
+   in front of the flagged ones is one character long and not the first token, else 1 *)
+Theorem C14_aligned_collision_iff :
+  forall d1 l1 pre1 mid1 post1 c1 w1 d2 l2 pre2 mid2 post2 c2 w2,
+  aligned d1 l1 pre1 mid1 post1 -> aligned d2 l2 pre2 mid2 post2 ->
+  context l1 d1 = Ok c1 -> context l2 d2 = Ok c2 -> nb_parts l1 d1 = Ok w1 -> nb_parts l2 d2 = Ok w2 ->
+  (c1 = c2 /\ w1 <> w2) <->
+  (same_report l1 l2 /\ flat_of w1 = flat_of w2 /\
+   (before_count pre1, List.length mid1) <> (before_count pre2, List.length mid2)).
+Proof. exact aligned_collision_iff. Qed.
+Check C14_aligned_collision_iff :
+  forall d1 l1 pre1 mid1 post1 c1 w1 d2 l2 pre2 mid2 post2 c2 w2,
+  aligned d1 l1 pre1 mid1 post1 -> aligned d2 l2 pre2 mid2 post2 ->
+  context l1 d1 = Ok c1 -> context l2 d2 = Ok c2 -> nb_parts l1 d1 = Ok w1 -> nb_parts l2 d2 = Ok w2 ->
+  (c1 = c2 /\ w1 <> w2) <->
+  (same_report l1 l2 /\ flat_of w1 = flat_of w2 /\
+   (before_count pre1, List.length mid1) <> (before_count pre2, List.length mid2)).
+Print Assumptions C14_aligned_collision_iff.
+
+(* which lints of REAL rules flag whole tokens: over the table of span sources regenerated from harper-core/src/linting/*.rs
+   (tools/tables/spanexprs.py) — every `Lint { span, .. }` of a rule file takes its span from a token's span, the hull of a
+   slice of tokens or Span::new(a.span.start, b.span.end), except the lints of three files whose spans lie inside one token
+   (the two-character suffix of a number, the first character of a sentence); nothing is unclassified *)
+Theorem C14_rule_lint_spans_token_aligned :
+  forallb (fun x => classified (snd x)) rule_lint_sites = true /\
+  map site_file (filter (fun x => negb (aligned_src (snd x))) rule_lint_sites)
+  = ["correct_number_suffix.rs"; "number_suffix_capitalization.rs"; "sentence_capitalization.rs"]%string.
+Proof. exact rule_lint_spans_token_aligned. Qed.
+Check C14_rule_lint_spans_token_aligned :
+  forallb (fun x => classified (snd x)) rule_lint_sites = true /\
+  map site_file (filter (fun x => negb (aligned_src (snd x))) rule_lint_sites)
+  = ["correct_number_suffix.rs"; "number_suffix_capitalization.rs"; "sentence_capitalization.rs"]%string.
+Print Assumptions C14_rule_lint_spans_token_aligned.
+
 (* ---------- non-vacuity ---------- *)
 (* the premises of hides / stable / stable_dictionary are satisfiable on real documents, and the witnesses
    of the repaired findings (regression inputs of corpus/C14; History/C14History.v proves that the OLD context
@@ -427,3 +535,20 @@ Proof.
   split; [exact context_prepend_needs_two|]. split; [exact context_append_needs_two|].
   split; vm_compute; reflexivity.
 Qed.
+
+(* phase 4: the right-hand side of C14_flat_collision_iff is satisfiable by token-aligned lints — at the edge of a text
+   without any one-character token, and inside a text next to a one-character token *)
+Example C14_phase4_examples :
+  (aligned fl_edge_doc (fl_lint 0 4) [] (firstn 2 fl_edge_toks) (skipn 2 fl_edge_toks) /\
+   aligned fl_edge_doc (fl_lint 10 12) (firstn 5 fl_edge_toks) (firstn 1 (skipn 5 fl_edge_toks)) (skipn 6 fl_edge_toks) /\
+   context (fl_lint 0 4) fl_edge_doc = context (fl_lint 10 12) fl_edge_doc /\
+   is_ok (context (fl_lint 0 4) fl_edge_doc) = true /\
+   nb_parts (fl_lint 0 4) fl_edge_doc <> nb_parts (fl_lint 10 12) fl_edge_doc /\
+   Forall (fun t => ~ one_char t) fl_edge_toks) /\
+  (aligned fl_one_doc (fl_lint 4 8) (firstn 1 fl_one_toks) (firstn 2 (skipn 1 fl_one_toks)) (skipn 3 fl_one_toks) /\
+   aligned fl_one_doc (fl_lint 5 9) (firstn 2 fl_one_toks) (firstn 2 (skipn 2 fl_one_toks)) (skipn 4 fl_one_toks) /\
+   context (fl_lint 4 8) fl_one_doc = context (fl_lint 5 9) fl_one_doc /\
+   is_ok (context (fl_lint 4 8) fl_one_doc) = true /\
+   nb_parts (fl_lint 4 8) fl_one_doc <> nb_parts (fl_lint 5 9) fl_one_doc /\
+   ~ at_edge (firstn 1 fl_one_toks) (skipn 3 fl_one_toks) /\ ~ at_edge (firstn 2 fl_one_toks) (skipn 4 fl_one_toks)).
+Proof. split; [exact aligned_collision_edge_example|exact aligned_collision_one_char_example]. Qed.
